@@ -132,6 +132,31 @@ Definition set_doc_text (t : dtext) (d : str) : dtext :=
                          else nl :: d_bind t ++ d_tail t
                end |}.
 
+(** a line that dedent's blank-line rule leaves alone *)
+Definition okline (l : str) : bool := is_nil l || negb (ws_only l).
+
+(** decidable well-formedness of a docstring view of a text stored under
+    [name] with the name token at [npos] (reflected by [wf_dtext] in
+    ProofsStored.v); evaluated by the tie on every generated view *)
+Definition name_at (l : str) (cb ce : nat) (name : str) : bool :=
+  Nat.leb cb (List.length l) && Nat.eqb ce (cb + List.length name) && str_eqb (slice l cb ce) name.
+
+Definition wf_dtextb (t : dtext) (name : str) (npos : nat * nat * nat) : bool :=
+  let '(row, cb, ce) := npos in
+  forallb no_nl (d_front t) && forallb okline (d_front t) && no_nl (d_bind t)
+  && Ascii.eqb (last (d_tail t) sp) nl
+  && match split_nl (removelast (d_tail t)) with
+     | t0 :: tr => forallb okline tr
+                   && match d_doc t with None => negb (ws_only t0) | Some _ => true end
+     | [] => false
+     end
+  && (if d_oneline t
+      then negb (ws_only (d_bind t)) && is_nil (lead_ws (d_bind t))
+      else existsb (fun l => negb (ws_only l) && is_nil (lead_ws l)) (d_front t))
+  && (if d_oneline t
+      then Nat.eqb (row - 1) (List.length (d_front t)) && name_at (d_bind t) cb ce name
+      else Nat.ltb (row - 1) (List.length (d_front t)) && name_at (nth (row - 1) (d_front t) []) cb ce name).
+
 (** documentation strings that survive the round trip through source text:
     no backslash, no triple quote inside or formed with the closing quotes
     (so no quote at the end), no line that
